@@ -23,7 +23,8 @@ ROWS = {
     10: "memory send(), buffer has room", 11: "memory send(), receiver waiting", 12: "memory receive(), buffer has items",
     13: "memory receive(), sender waiting", 14: "to_thread.run_sync()", 15: "TaskHandle.wait() on finished task",
     16: "await TaskHandle of finished task", 17: "Future.wait() on finished future",
-    18: "functools.reduce() with zero callback calls", 19: "await Future (finished)", 20: "await Future (failed)", 30: "Lock.acquire(fast_acquire=True)", 31: "acquire_nowait()",
+    18: "functools.reduce() with zero callback calls", 19: "await Future (finished)", 20: "await Future (failed)",
+    21: "Condition.wait() in a cancelled scope, another task queued on the lock", 30: "Lock.acquire(fast_acquire=True)", 31: "acquire_nowait()",
 }
 CHECKED = [1, 2, 3, 4, 5, 6, 7, 8, 10, 11, 12, 13, 14, 15, 16, 17, 18, 19, 20]
 
@@ -78,6 +79,22 @@ async def run_row(row: int, cancelled: bool):
         op = cond.wait
         # effect = the lock was released / a waiter was queued
         check_effect = lambda: int(not cond.locked()) + cond.statistics().tasks_waiting  # noqa: E731
+    elif row == 21:
+        cond = Condition()
+        await cond.acquire()
+        setup_tg = create_task_group()
+        await setup_tg.__aenter__()
+        entered = []
+
+        async def contender():
+            await cond.acquire()
+            entered.append(1)          # ran inside the critical section
+            cond.release()
+        setup_tg.start_soon(contender)
+        await anyio.wait_all_tasks_blocked()
+        op = cond.wait
+        # effect = the lock was given up: the queued task got (or was handed) the critical section
+        check_effect = lambda: len(entered) + int(cond.statistics().lock_statistics.owner is not None and cond.statistics().lock_statistics.owner.id != id(asyncio.current_task()))  # noqa: E731
     elif row in (10, 12):
         s, r = create_memory_object_stream(2)
         if row == 10:
@@ -182,7 +199,7 @@ async def run_row(row: int, cancelled: bool):
     try:
         if row in (5, 30, 31) and lock.locked():
             lock.release()
-        if row in (8, 9) and cond.locked():
+        if row in (8, 9, 21) and cond.locked():
             cond.release()
     except RuntimeError:
         pass
@@ -199,7 +216,7 @@ def run_config(config: str, rows):
     async def main():
         for row in rows:
             for canc in (False, True):
-                if row == 9 and not canc:
+                if row in (9, 21) and not canc:
                     continue
                 try:
                     out[(row, canc)] = await run_row(row, canc)
@@ -250,7 +267,7 @@ def check(tier: str) -> int:
             expected.append(v)
             meta.append((cfg, row, canc))
             # property oracle (independent of the shape table)
-            if row in CHECKED or row == 9:
+            if row in CHECKED or row in (9, 21):
                 if canc:
                     if v[0] != 1:
                         hits.append((cfg, row, canc, f"{ROWS[row]} in an already cancelled scope did not raise the cancellation exception on {cfg}"))
